@@ -9,7 +9,7 @@ from harness.common import Machinery
 from harness.drivers import host_drv as hd
 
 TREE = {"RunnerPassesTuple": False, "EnvSnapshotCached": False, "RunnerResolvesOnHostPath": False, "MaxRuns": 2}
-CMDC = ["absolute", "bare"]
+CMDC = ["absolute", "bare", "spacePath"]
 ARGC = ["none", "plain", "spaces", "quotes", "unicode", "empty", "many"]
 ENVC = ["absent", "empty", "values"]
 TOC = ["absent", "int", "float", "stringNumber"]
@@ -23,7 +23,7 @@ def cases(rng, quick):
             for en in ENVC:
                 for t in (TOC if not quick else [rng.choice(TOC)]):
                     for cmd in CMDC:
-                        out.append({"entry": e, "malformed": "none", "cfg": [{"args": a, "env": en, "timeout": t, "cmd": cmd, "extra": rng.random() < 0.5}]})
+                        out.append({"entry": e, "malformed": "none", "verbose": e == "cliTest" and (len(out) % 2 == 1), "cfg": [{"args": a, "env": en, "timeout": t, "cmd": cmd, "extra": rng.random() < 0.5}]})
         for v in range(6):
             out.append({"entry": e, "malformed": "invalidJson", "variant": v, "cfg": [{"args": "plain", "env": "absent", "timeout": "absent", "cmd": "absolute"}]})
         for m in ("missingFile", "invalidJson", "unknownServer"):
@@ -40,7 +40,7 @@ def cases(rng, quick):
 def check_c20(ctx):
     quick = ctx.tier == "quick"
     ctx.cov["rule"] = ("cases = (entry point, malformed class, 1..4 servers each with an args class {none, plain, spaces, quotes/shell metacharacters, Unicode, empty strings, 40 args}, "
-                       "env class {absent, empty, values incl. empty and non-ASCII values}, command class {absolute interpreter path, bare name present differently on the configured and on the host PATH}, timeout class {absent, int, float, string number}, optional extra keys); every single-server "
+                       "env class {absent, empty, values incl. empty and non-ASCII values}, command class {absolute interpreter path, bare name present differently on the configured and on the host PATH, absolute path containing blanks}, the CLI test with and without --verbose, timeout class {absent, int, float, string number}, optional extra keys); every single-server "
                        "combination per entry point plus seeded multi-server configurations; each runs the real entry point on a generated file with witness children; "
                        "distinct_nontrivial = distinct cases that spawn at least one child")
     ctx.assumptions += ["the command is the running Python interpreter; the witness script path is the first argument and everything after it is the configured argument list under test",
